@@ -10,6 +10,7 @@ built-in component; accepted iff the dependency relation (python, from the AST) 
 the chain printed by Error::WireLoop must be a cycle of that relation."""
 import itertools
 import random
+import re
 
 import lib
 import exprcheck
@@ -269,11 +270,33 @@ def hcl_part(report, rng, tier):
     cases = {}
     lines = []
     for i in range(n):
-        text, deps = hcl_case(rng)
+        if i % 25 == 7:
+            # one long ring (up to 40 wires), possibly with a tail leading into it: the WHOLE chain must be shown
+            m_ = rng.randint(2, 40)
+            ring = ["r%d" % j for j in range(m_)]
+            tail = ["t%d" % j for j in range(rng.randint(0, 3))]
+            st = ["wire %s : 64;" % w for w in ring + tail] + ["pc = 0;", "Stat = STAT_AOK;"]
+            deps = set()
+            for j, w in enumerate(ring):
+                prev = ring[(j - 1) % m_]
+                st.append("%s = %s + %d;" % (w, prev, j))
+                deps.add((prev, w))
+            for j, w in enumerate(tail):
+                src = ring[rng.randrange(m_)] if j == 0 else tail[j - 1]
+                st.append("%s = %s;" % (w, src))
+                deps.add((src, w))
+            rng.shuffle(st)
+            text = "\n".join(st) + "\n"
+        else:
+            text, deps = hcl_case(rng)
         cid = "h%d" % i
         cases[cid] = {"hcl": text, "deps": sorted(deps), "cyclic": find_dep_cycle(deps)}
-        lines.append("%s front %s 0" % (cid, lib.hexs(text)))
+        lines.append("%s front %s 1" % (cid, lib.hexs(text)))
     impl = lib.run_cases(lib.build_harness("dev"), lines)
+    # the text of every loop diagnostic against the model of the renderer, and against the program itself
+    import rendercheck
+    cyc_ids = [cid for cid, c in cases.items() if c["cyclic"]]
+    rendercheck.compare(report, {cid: cases[cid]["hcl"] for cid in cyc_ids}, impl, "loop", ids=cyc_ids, limit=200 if tier == "quick" else 5000)
     ncyc = 0
     for cid, c in cases.items():
         blk = impl.get(cid, ["MISSING"])
@@ -303,6 +326,18 @@ def hcl_part(report, rng, tier):
         ok = len(chain) > 0 and all((chain[j], chain[(j + 1) % len(chain)]) in deps for j in range(len(chain)))
         if not ok:
             report.violation("loop-chain-not-a-cycle", "reported chain %s is not a cycle of the program" % chain, rep)
+            continue
+        # ... and the chain as PRINTED: every "'x' depends on 'y'" line is a read of the program, the lines close a cycle
+        rend = [l for l in blk if l.startswith("render ")]
+        if rend:
+            text_ = bytes.fromhex(rend[0][7:].replace("-", "")).decode("utf-8", "replace")
+            links = re.findall(r"'([^']+)' depends on '([^']+)'", text_)
+            bad = [(x, y) for x, y in links if (y, x) not in deps]
+            closes = len(links) > 0 and all(links[j][1] == links[j - 1][0] for j in range(1, len(links))) and links[0][1] == links[-1][0]
+            if bad or not closes or len(links) != len(chain):
+                report.violation("loop-printed-chain-not-a-cycle", "the printed chain is not a cycle of the program: %s%s"
+                                 % (["%s depends on %s" % l for l in (bad or links)[:4]], "" if closes else " (does not close)"),
+                                 dict(rep, printed=text_[:1500]))
     return n, ncyc, cases
 
 
